@@ -77,6 +77,9 @@ func normalizeCase(c *Case) {
 	for i := range c.Ops {
 		normalizeOp(&c.Ops[i])
 	}
+	for i := range c.Reqs {
+		normalizeOp(&c.Reqs[i])
+	}
 	if c.Pool != nil {
 		for i := range c.Pool.Probes {
 			p := &c.Pool.Probes[i]
